@@ -117,6 +117,11 @@ class WSPeer(BasePeer):
             go()
 
     def _script_item(self, conn, item):
+        if item.get("client_send_fail"):
+            # from now on the client's writes on this connection fail (the server's RST has reached the client's stack
+            # before the client writes again)
+            conn.sock.send_fail = {"after_bytes": 0, "errno": str(item["client_send_fail"])}
+            conn.sock.accept_armed = True
         if "hex" in item:
             if self.sent_close and item.get("unless_closed"):
                 return
